@@ -176,6 +176,9 @@ def gen_history(t: Tape, idx: int, maxlen: int) -> dict:
             st["text"] = None
         if kind == "ext_bom":
             st["text"] = "\ufeff" + docs.canonical(docs.gen_doc(t, mk + "x"))
+            st["same"] = bool(t.choose(2, "h.bomsame"))  # True: an editor re-saves the CURRENT content 'with BOM'
+        if kind == "ext_trailing_ws":
+            st["same"] = bool(t.choose(2, "h.wssame"))
         if kind == "ext_fm_only":
             st["text"] = "---\nname: only-" + mk + "\ndescription: no body\n---\n"
         if kind == "ext_trailing_ws":
@@ -353,8 +356,12 @@ def _run_history(case, stats, root, target, TARGET):
                         os.unlink(target)
                 else:
                     os.makedirs(os.path.dirname(target), exist_ok=True)
+                    payload = st["text"].encode() if st.get("text") is not None else None
+                    if st.get("same") and cur is not None and cur_h is not None:
+                        # the same document, re-saved by an editor with a tiny byte-level difference
+                        payload = (b"\xef\xbb\xbf" + cur) if kind == "ext_bom" else cur.replace(b"\n", b"  \n", 1)
                     with open(target, "wb") as f:
-                        f.write(st["text"].encode() if st.get("text") is not None else b"===DOC===\nA::\xff\xfe\x00\n===END===\n")
+                        f.write(payload if payload is not None else b"===DOC===\nA::\xff\xfe\x00\n===END===\n")
             log.append([k, kind])
             sig_hist.append(kind)
             continue
